@@ -164,12 +164,44 @@ class StepSem:
         body = _Subst(mapping, free).visit(copy.deepcopy(fn.node.body))
         return ast.unparse(body)
 
+    def _paths_form(self, fn: Fn, env: Dict[str, Term]) -> str:
+        """`<term>` when the callable has one unconditional returning path, `{cond -> ret … | …}` otherwise."""
+        o = self.outcomes(fn, env)
+        if o.startswith(" -> ret ") and " | " not in o:
+            return o[len(" -> ret "):]
+        return "{" + o + "}"
+
     def outcomes(self, fn: Fn, env: Dict[str, Term]) -> str:
         out = set()
         mod = fn.owner[3] if fn.owner and len(fn.owner) > 3 and fn.owner[3] is not None else self.module
-        e = dict(fn.frame or {})
+        e = {}
+        own_ = {a_.arg for a_ in fn.node.args.posonlyargs + fn.node.args.args + fn.node.args.kwonlyargs}
+        body_ = fn.node.body if isinstance(fn.node.body, list) else [fn.node.body]     # (defaults are evaluated where the callable is defined)
+        used_ = {n_.id for b_ in body_ for n_ in ast.walk(b_) if isinstance(n_, ast.Name) and isinstance(n_.ctx, ast.Load)} - own_
+        for k_, v_ in (fn.frame or {}).items():
+            if k_ not in used_:
+                continue            # not a free variable of the callable
+            # a helper parameter that the callable closes over is *captured*: frozen at construction, never evaluated
+            r_ = self.raw(v_) if isinstance(v_, Term) else ""
+            if isinstance(v_, (Sym, Child)) and (self.pname(getattr(v_, "head", "")) or (isinstance(v_, Child) and r_.startswith(("*P", "**PK")))) and k_ not in env:
+                self.captured.append(r_)
+                e[k_] = Sym("CAPTURED⟨" + r_ + "⟩")
+            else:
+                e[k_] = v_
         e.update(env)
-        for p in analyse_function(Ctx(self.repo), mod, fn.node, e):
+        node = fn.node
+        if isinstance(node, ast.Lambda):
+            # a lambda is the function that returns its body
+            fd = ast.parse("def _lambda_():\n    return None").body[0]
+            fd.args = node.args
+            fd.body[0].value = node.body
+            ast.copy_location(fd, node)
+            ast.fix_missing_locations(fd)
+            for n2 in ast.walk(fd):
+                if hasattr(n2, "lineno") and not getattr(n2, "lineno", None):
+                    n2.lineno = getattr(node, "lineno", 1)
+            node = fd
+        for p in analyse_function(Ctx(self.repo), mod, node, e):
             cs = set()
             for c in p.conds:
                 if c[2]:
@@ -218,11 +250,9 @@ class StepSem:
                     mapping[p_] = f"INPUT{j}"
             else:
                 mapping[free[0]] = "INPUT"
-            if f.kind == "lambda":
-                return self._lambda_body(f, mapping)
-            # a named function: what it does with that binding (its paths), whatever it is called
+            # what the function does with that binding (its paths) — a lambda and a named function alike, whatever they are called
             env = {p_: Sym(mapping[p_]) for p_ in params if p_ in mapping}
-            return "{" + self.outcomes(f, env) + "}"
+            return self._paths_form(f, env)
         head = self.raw(f)
         args = list(pos) + ["INPUT"] + [f"{k}={v}" for k, v in kw.items()]
         if isinstance(f, Sym) and not f.args and self.pname(f.head):
@@ -265,8 +295,8 @@ class StepSem:
         if isinstance(t, Fn):
             if t.kind == "lambda":
                 params = [a.arg for a in t.node.args.posonlyargs + t.node.args.args]
-                mapping = {p_: ("INPUT" if len(params) == 1 else f"INPUT{j}") for j, p_ in enumerate(params)}
-                return "λ " + self._lambda_body(t, mapping)
+                env_l = {p_: Sym("INPUT" if len(params) == 1 else f"INPUT{j}") for j, p_ in enumerate(params)}
+                return "λ " + self._paths_form(t, env_l)
             if t.kind == "func":
                 g = t.node
                 ps = [a.arg for a in g.args.posonlyargs + g.args.args]
